@@ -5545,6 +5545,15 @@ impl<'a, const HAS_CR: bool> Parser<'a, HAS_CR> {
                 self.close_deeper_indents(indent);
                 self.parse_value(indent)?;
             }
+            Some(b'|' | b'>') => {
+                // A block scalar that starts its line: the root of a bare document
+                // (`|-\n a: b`), or a value deferred to its own line. Without this arm
+                // the header fell to the plain-scalar arm below, whose scan stops inside
+                // the scalar's content and re-reads the rest as further nodes.
+                self.check_mapping_under_mapping_gap(indent, false)?;
+                self.close_deeper_indents(indent);
+                self.parse_block_scalar(indent)?;
+            }
             Some(b'&' | b'!') => {
                 // Anchor and/or tag (either order) - check if this is
                 // `&anchor key: value` / `!!str key: value` (property on a
@@ -5586,8 +5595,8 @@ impl<'a, const HAS_CR: bool> Parser<'a, HAS_CR> {
                             // Property before block sequence on same line
                             self.parse_sequence_item(indent)?;
                         }
-                        Some(b'{' | b'[') => {
-                            // Property before flow collection
+                        Some(b'{' | b'[' | b'|' | b'>') => {
+                            // Property before flow collection or block scalar
                             self.parse_value(indent)?;
                         }
                         _ => {
